@@ -5,7 +5,6 @@
 package c03
 
 import (
-	"sync/atomic"
 	"context"
 	"encoding/json"
 	"errors"
@@ -17,6 +16,7 @@ import (
 	"sort"
 	"strings"
 	"sync"
+	"sync/atomic"
 	"testing"
 	"time"
 
@@ -198,7 +198,16 @@ func TestC03Mix(t *testing.T) {
 					case 17:
 						name = "Replay"
 						n := 0
-						bus.Replay(ctx, ebu.OffsetOldest, func(*ebu.StoredEvent) error {
+						from := ebu.OffsetOldest
+						if k%4 == 0 {
+							from = ebu.OffsetNewest // "only what comes from now on": nothing, or an error - but it returns
+							if s, ok := st.Store.(ebu.EventStoreStreamer); ok && k%8 == 0 {
+								for range s.ReadStream(ctx, ebu.OffsetNewest) {
+									break
+								}
+							}
+						}
+						bus.Replay(ctx, from, func(*ebu.StoredEvent) error {
 							n++
 							if n > 40 {
 								return errors.New("enough")
